@@ -67,14 +67,22 @@ func TestVerifC03FatSweep(t *testing.T) {
 	c03Sweep(t, "C03FatSweep", true)
 }
 
-func c03Sweep(t *testing.T, name string, fat bool) {
+// The same sweep with every system (and every clone of it) mirrored onto a real LocalBackend directory and SQLite
+// lock database: recovery re-applies staged uploads onto files that already exist (idempotent immutable uploads,
+// comparison of existing files, data tiles above the 16 KiB comparison chunk).
+func TestVerifC03RealSweep(t *testing.T) {
+	c03Sweep(t, "C03RealSweep", false, true)
+}
+
+func c03Sweep(t *testing.T, name string, fat bool, reals ...bool) {
+	real := len(reals) > 0 && reals[0]
 	rec := vfstat.New(name)
 	defer rec.Flush()
 	maxB, nC, maskBudget := 10, 1, 16
 	if vfstat.Thorough() {
 		maxB, nC, maskBudget = 1000, 3, 64
 	}
-	if fat {
+	if fat || real {
 		maxB, nC, maskBudget = 3, 1, 4
 		if vfstat.Thorough() {
 			maxB, maskBudget = 12, 8
@@ -88,6 +96,13 @@ func c03Sweep(t *testing.T, name string, fat bool) {
 			if sc.Main < sc.Fat {
 				sc.Main = sc.Fat + rapid.IntRange(0, 3).Draw(t, "fatExtra")
 			}
+		}
+		if real {
+			// a full data tile of ordinary entries is above the 16 KiB chunk in which existing files are compared
+			if sc.Main < 200 {
+				sc.Main = 256 + rapid.IntRange(-3, 40).Draw(t, "realMain")
+			}
+			defer simReleaseAllReal()
 		}
 		salt := rapid.Uint64().Draw(t, "salt")
 		rnd := func() uint64 { salt = salt*6364136223846793005 + 1442695040888963407; return salt }
@@ -106,7 +121,12 @@ func c03Sweep(t *testing.T, name string, fat bool) {
 			t.Fatalf("C03 violated in scenario {%v}\n  crash path: %s\n  %v", sc, path, err)
 		}
 		nextID := 0
-		base, err := simBuildPre(t, newDir(), sc, &nextID, nil)
+		var configure func(*simSys)
+		baseDir := newDir()
+		if real {
+			configure = func(s *simSys) { simAttachRealStores(s, baseDir) }
+		}
+		base, err := simBuildPre(t, baseDir, sc, &nextID, configure)
 		if err != nil {
 			t.Fatalf("VERIF-INCONCLUSIVE: building the pre-state of {%v}: %v", sc, err)
 		}
